@@ -497,7 +497,7 @@ def rule_silent_error_nodes(ck, facts):
     ck.floor(R, "lowering_arms_with_error_nodes", n, 4)
 
 
-def rule_assignment_protocol(ck, facts):
+def rule_assignment_protocol(ck, facts, only_kinds=None):
     """parser / lowering protocol for `target = value`: the parser emits it as two sibling nodes"""
     import re
     from ..rules import cover
@@ -552,6 +552,8 @@ def rule_assignment_protocol(ck, facts):
 
     snake = lambda k: re.sub(r"(?<!^)(?=[A-Z])", "_", k).lower()
     for k in sorted(kinds):
+        if only_kinds and k not in only_kinds:
+            continue
         handlers = []
         for f in L:
             cov = cover.coverage(facts, f, SK)
